@@ -13,7 +13,7 @@ Line-protocol driver of the C15 models (stateless: every line is a whole case).
                cs.<l|r>.<d|r>  cc.<l|r>  wt.<0|k>  eh  rp.<l|r>.<d|r>.<0|k>
        method: size | iw | ra <off> <len> | proto <max> | bs <max> | cr <off> <all|close|one> | rdr <all|close> | discard | iwf <k>
                (iwf: res is the result if the writer survives; the writer's error is the alternative)
-       -> res=<ok:hex | unsound:hex | err:k | size:n | panic> eof=.. cerr=.. wterm=.. waited=.. closes=<n|-> order=<c<t>,w<t>..|->   or   buildpanic
+       -> res=<ok:hex | unsound:hex | err:k | size:n | panic> eof=.. cerr=.. wterm=.. waited=.. closes=<n|-> order=<c<t>,w<t>..|->   or   buildpanic   or   blocked (a handle of a stream clone is abandoned: sib = a)
 -/
 open BB.Driver BB.Mux
 
@@ -122,7 +122,8 @@ def pushTok (stack : List BufExpr) (w : String) : Option (List BufExpr) :=
     match stack, parseSide side with
     | e :: rest, some sd =>
       if sib == "d" then some (.cloneStream e sd .discard :: rest)
-      else if sib == "r" then some (.cloneStream e sd .read :: rest) else none
+      else if sib == "r" then some (.cloneStream e sd .read :: rest)
+      else if sib == "a" then some (.cloneStream e sd .abandon :: rest) else none
     | _, _ => none
   | ["cc", side] =>
     match stack, parseSide side with
@@ -137,7 +138,8 @@ def pushTok (stack : List BufExpr) (w : String) : Option (List BufExpr) :=
     | e :: rest, some sd, some r =>
       let res := if r = 0 then none else some r
       if sib == "d" then some (.replicate e sd .discard res :: rest)
-      else if sib == "r" then some (.replicate e sd .read res :: rest) else none
+      else if sib == "r" then some (.replicate e sd .read res :: rest)
+      else if sib == "a" then some (.replicate e sd .abandon res :: rest) else none
     | _, _, _ => none
   | ["eh"] =>
     match stack with
@@ -197,6 +199,7 @@ def doProg (args : List String) : String :=
           let evs := (events b).map fun (ev : Ev) => match ev with | Ev.closed t => s!"c{t}" | Ev.wait t => s!"w{t}"
           if evs.isEmpty || m == Method.getSizeBytes then "-" else ",".intercalate evs
         | none => "-"
+      if blocks env e then "blocked" else
       match exec env e m with
       | some o => showOut m o ++ s!" closes={cl} order={order}"
       | none => "buildpanic"
